@@ -10,6 +10,7 @@ import (
 	"reflect"
 	"unsafe"
 
+	"github.com/taurusgroup/multi-party-sig/internal/round"
 	"github.com/taurusgroup/multi-party-sig/pkg/math/curve"
 	"github.com/taurusgroup/multi-party-sig/verif/ref"
 )
@@ -153,3 +154,26 @@ func SelfCheck() {
 
 // InfraMsg marks Fatal as infrastructure trouble for the framework.
 func (f Fatal) InfraMsg() string { return f.Msg }
+
+// RoundOf returns the number of the round a handler is currently in (-1 if unknown); harness-side
+// introspection used only for probes, never for verdicts.
+func RoundOf(h interface{}) (r int) {
+	r = -1
+	defer func() { _ = recover() }()
+	rv := reflect.ValueOf(h)
+	for rv.Kind() == reflect.Ptr || rv.Kind() == reflect.Interface {
+		rv = rv.Elem()
+	}
+	f := rv.FieldByName("currentRound")
+	if !f.IsValid() {
+		f = rv.FieldByName("round")
+	}
+	if !f.IsValid() {
+		return -1
+	}
+	f = reflect.NewAt(f.Type(), unsafe.Pointer(f.UnsafeAddr())).Elem()
+	if n, ok := f.Interface().(interface{ Number() round.Number }); ok {
+		return int(n.Number())
+	}
+	return -1
+}
